@@ -26,6 +26,9 @@ def declare(rep):
     rep.rule("C11.no-move", "no function in refine_mesh's closure mutates pos_ of an existing node", floor=20)
     rep.rule("C11.label-propagation", "split_edge gives each new face the type label of the parent face on its side", floor=4)
     rep.rule("C11.winding-side", "split_edge orients the children of each parent face with that face's own normal and opposite node", floor=2)
+    rep.rule("C11.bounded", "refine_mesh returns after a bounded number of operations: its work loop is bounded by the operation counter, every pass pops an edge first, every call that can refill the work list is paired with counter++, "
+             "and no counted for-loop of the refinement closure changes its own induction variable in the body", floor=5)
+    rep.rule("C11.triangle-score", "get_triangle_score measures the three distinct edges of the triangle and returns, in every branch, an edge whose measured length is maximal under the comparisons that lead to that branch (decided over all weak orderings of the three lengths)", floor=4)
     rep.rule("C11.selective", "split only if l2 > l_max^2, merge only if l2 < l_min^2 and can_be_merged, swap only if score < threshold; thresholds are squares of the constructor arguments", floor=5)
 
 
@@ -66,6 +69,8 @@ def run(rep, prog, tier):
     if not rep.rules:
         declare(rep)
     cm, dm = prog.config
+    bounded(rep, prog)
+    triangle_score(rep, prog)
     split = prog.fn("local_mesh_refiner::split_edge")
     merge = prog.fn("local_mesh_refiner::merge_edge")
     for fn, which in ((split, "split"), (merge, "merge")):
@@ -360,3 +365,167 @@ def _selective_rest(rep, prog, rm, fi):
             rep.ok("C11.selective", prog, c, None, "%s == %s" % (name, ex))
         else:
             rep.violation("C11.selective", prog, c, None, "%s is not the square of the constructor argument" % name, "%s is initialised to %s, expected %s" % (name, g, ex))
+
+
+def _writes_var(n, did):
+    """does statement/expression n assign, compound-assign, increment or decrement the local variable did?"""
+    for x in walk(n):
+        k = x.get("k")
+        t = None
+        if k in ("BinaryOperator", "CompoundAssignOperator") and (x.get("op") == "=" or k == "CompoundAssignOperator"):
+            t = strip(x["c"][0])
+        elif k == "UnaryOperator" and "++" in x.get("op", "") or k == "UnaryOperator" and "--" in x.get("op", ""):
+            t = strip(x["c"][0])
+        if t is not None and t.get("k") == "DeclRefExpr" and t["ref"].get("did") == did:
+            yield x
+
+
+def bounded(rep, prog):
+    rule = "C11.bounded"
+    root = prog.fn("local_mesh_refiner::refine_mesh")
+    fi = prog.index(root)
+    # (1)-(3): the work loop of refine_mesh
+    loops = [n for n in walk(root["body"]) if n.get("k") == "WhileStmt"]
+    if len(loops) != 1:
+        raise AnalysisBroken("refine_mesh: expected one work loop, found %d" % len(loops))
+    wl = loops[0]
+    counter = None
+    for c in walk(wl["cond"]):
+        if c.get("k") == "BinaryOperator" and c.get("op") in ("<", "<="):
+            l = strip(c["c"][0])
+            if l.get("k") == "DeclRefExpr" and l["ref"].get("dk") == "Var" and "int" in (l.get("t") or "") or l.get("k") == "DeclRefExpr" and "long" in (l.get("t") or ""):
+                counter = l["ref"]
+    top_and = strip(wl["cond"])
+    if counter is None or not (top_and.get("k") == "BinaryOperator" and top_and.get("op") == "&&"):
+        rep.violation(rule, prog, root, wl, "work loop not bounded by an operation counter", "the work loop of refine_mesh (%s) is not of the form 'work left && counter < bound': edges that keep being split and merged (unstable simulation) would be processed forever" % short(wl["cond"], 80))
+        return
+    rep.ok(rule, prog, root, wl, "work loop runs only while %s < bound" % counter["name"])
+    body = wl["body"].get("c", []) if wl["body"].get("k") == "CompoundStmt" else [wl["body"]]
+    # every pass removes one edge from the work set before anything can refill it
+    pops = [i for i, st in enumerate(body) if any(x.get("k") == "CXXMemberCallExpr" and x.get("callee", "").endswith("::erase") for x in walk(st)) and fi.enclosing(st, ("IfStmt",)) is None]
+    refills = [x for x in walk(wl["body"]) if x.get("k") == "CXXMemberCallExpr" and x.get("callee") in ("local_mesh_refiner::split_edge", "local_mesh_refiner::merge_edge")]
+    if pops and all(fi.order[id(body[pops[0]])] < fi.order[id(r)] for r in refills):
+        rep.ok(rule, prog, root, body[pops[0]], "every pass first erases the edge it examines from the work set")
+    else:
+        rep.violation(rule, prog, root, wl, "a pass of the work loop does not consume an edge", "refine_mesh: the loop body does not unconditionally erase the examined edge from the work set before split/merge can add new ones")
+    for r in refills:
+        blk = fi.enclosing(r, ("CompoundStmt",))
+        incs = [x for st in (blk.get("c", []) if blk else []) for x in _writes_var(st, counter["did"]) if x.get("k") == "UnaryOperator" and "++" in x.get("op", "") or False]
+        incs = [x for st in (blk.get("c", []) if blk else []) for x in _writes_var(st, counter["did"])]
+        good = [x for x in incs if (x.get("k") == "UnaryOperator" and "++" in x.get("op", "")) or (x.get("k") == "CompoundAssignOperator" and x.get("op") == "+=")]
+        if good and len(good) == len(incs):
+            rep.ok(rule, prog, root, r, "%s is counted (%s++ in the same block)" % (r["callee"].split("::")[-1], counter["name"]))
+        else:
+            rep.violation(rule, prog, root, r, "%s not counted" % r["callee"].split("::")[-1], "refine_mesh: %s can add edges to the work set but the operation counter %s is not incremented with it: the bound of the work loop no longer limits the number of operations" % (short(r, 50), counter["name"]))
+    others = [x for x in _writes_var(wl["body"], counter["did"]) if not ((x.get("k") == "UnaryOperator" and "++" in x.get("op", "")) or (x.get("k") == "CompoundAssignOperator" and x.get("op") == "+="))]
+    for x in others:
+        rep.violation(rule, prog, root, x, "operation counter decreased or reset inside the work loop", "refine_mesh: %s" % short(x, 60))
+    # (4) counted for-loops of the closure
+    for k in sorted(prog.closure({root["key"]})):
+        fn = prog.functions[k]
+        if not isinstance(fn.get("body"), dict) or fn.get("cls") not in ("local_mesh_refiner", "cell", "face", "edge", "node"):
+            continue
+        for l in walk(fn["body"]):
+            if l.get("k") != "ForStmt" or not isinstance(l.get("init"), dict):
+                continue
+            decls = l["init"].get("decls") or []
+            if len(decls) != 1 or "did" not in decls[0]:
+                continue
+            did = decls[0]["did"]
+            inbody = list(_writes_var(l["body"] or {}, did))
+            if inbody:
+                rep.violation(rule, prog, fn, inbody[0], "%s changes its own loop counter in the body" % fn["qn"],
+                              "%s: the loop over %s also executes %s in its body: when the guarded operation leaves the mesh unchanged (swap_edge returns early for a pathological configuration) the same element is examined again and again and refine_mesh never returns"
+                              % (fn["qn"], short(l["cond"], 50), short(inbody[0], 30)))
+            else:
+                rep.ok(rule, prog, fn, l, "for(%s): the counter only advances in the loop header" % short(l["cond"], 50))
+
+
+def triangle_score(rep, prog):
+    import itertools
+    rule = "C11.triangle-score"
+    fn = prog.fn("local_mesh_refiner::get_triangle_score")
+    fi = prog.index(fn)
+    var_init = {n["did"]: n for n in walk(fn["body"]) if n.get("k") == "Var" and isinstance(n.get("init"), dict)}
+
+    def node_id_of(e):
+        """identity (did of the id variable / binding) of the node an expression designates"""
+        e = strip(e)
+        if e.get("k") == "DeclRefExpr":
+            d = var_init.get(e["ref"].get("did"))
+            if d is not None:
+                for x in walk(d["init"]):
+                    if x.get("k") == "CXXMemberCallExpr" and x.get("callee", "").split("::")[-1] in ("get_node", "get_const_ref_node"):
+                        a = strip(call_args(x)[0])
+                        if a.get("k") == "DeclRefExpr":
+                            return a["ref"]["did"]
+            return e["ref"].get("did")
+        return None
+
+    lengths = {}
+    for did, d in var_init.items():
+        init = strip(d["init"])
+        if init.get("k") == "CXXMemberCallExpr" and init.get("callee") in ("vec3::norm", "vec3::squared_norm"):
+            o = strip(call_obj(init))
+            while o.get("k") in ("ParenExpr", "MaterializeTemporaryExpr", "CXXBindTemporaryExpr", "ImplicitCastExpr") and o.get("c"):
+                o = strip(o["c"][0])
+            if o.get("k") == "CXXOperatorCallExpr" and o.get("op") == "-" and len(o.get("c", [])) == 3:
+                p = (node_id_of(o["c"][1]), node_id_of(o["c"][2]))
+                if None not in p:
+                    lengths[did] = (d, frozenset(p))
+    if len(lengths) != 3:
+        raise AnalysisBroken("get_triangle_score: expected three edge lengths |x - y|, found %d" % len(lengths))
+    pairs = [p for _d, p in lengths.values()]
+    ids = set().union(*pairs)
+    if len(set(pairs)) == 3 and len(ids) == 3 and all(len(p) == 2 for p in pairs):
+        rep.ok(rule, prog, fn, None, "the three lengths are those of the three distinct edges of the triangle")
+    else:
+        dup = [d["name"] for d, p in lengths.values() if pairs.count(p) > 1 or len(p) != 2]
+        rep.violation(rule, prog, fn, lengths[next(iter(lengths))][0], "the three measured lengths are not the three edges of the triangle",
+                      "get_triangle_score: %s measure the same pair of nodes (or a node with itself): one edge of the triangle is never measured, so the perimeter in the quality score counts an edge twice and the longest-edge "
+                      "comparison is made with the wrong length - well-shaped triangles are classified as elongated and swapped" % ", ".join(dup))
+        return
+    assigns = []
+    for n in walk(fn["body"]):
+        if n.get("k") in ("CXXOperatorCallExpr", "BinaryOperator") and n.get("op") == "=":
+            calls = [x for x in walk(n) if x.get("k") == "CXXMemberCallExpr" and x.get("callee") == "cell::get_edge"]
+            if calls:
+                a = call_args(calls[0])
+                p = frozenset((node_id_of(a[0]), node_id_of(a[1])))
+                assigns.append((n, p))
+    if len(assigns) < 3:
+        raise AnalysisBroken("get_triangle_score: longest-edge assignments not found")
+    dids = list(lengths)
+    for n, p in assigns:
+        guards = []
+        for par, slot, ch in fi.ancestors(n):
+            if par.get("k") == "IfStmt" and slot in ("then", "else"):
+                c = strip(par["cond"])
+                if c.get("k") == "BinaryOperator" and c.get("op") in (">", "<", ">=", "<="):
+                    l, r = strip(c["c"][0]), strip(c["c"][1])
+                    if l.get("k") == "DeclRefExpr" and r.get("k") == "DeclRefExpr" and l["ref"]["did"] in lengths and r["ref"]["did"] in lengths:
+                        guards.append((l["ref"]["did"], c["op"], r["ref"]["did"], slot == "then"))
+                        continue
+                raise AnalysisBroken("%s: guard %s of the longest-edge choice is not a comparison of two edge lengths" % (prog.loc(fn, par), short(c, 60)))
+        chosen = [d for d in dids if lengths[d][1] == p]
+        if len(chosen) != 1:
+            rep.violation(rule, prog, fn, n, "returned edge is not an edge of the triangle", "%s does not designate one of the three measured edges" % short(n, 70))
+            continue
+        ch_ = chosen[0]
+        bad = None
+        for ranks in itertools.product(range(3), repeat=3):
+            val = dict(zip(dids, ranks))
+            ok = True
+            for a, op, b, pos in guards:
+                t = {">": val[a] > val[b], "<": val[a] < val[b], ">=": val[a] >= val[b], "<=": val[a] <= val[b]}[op]
+                if t != pos:
+                    ok = False
+                    break
+            if ok and val[ch_] < max(val.values()):
+                bad = val
+                break
+        if bad is None:
+            rep.ok(rule, prog, fn, n, "%s is a longest edge under every ordering of the lengths that reaches this branch" % lengths[ch_][0]["name"])
+        else:
+            rep.violation(rule, prog, fn, n, "branch returns an edge that is not the longest",
+                          "%s is reached for the ordering %s of the edge lengths, for which %s is not maximal: the edge handed to swap_edge is not the longest edge of the triangle" % (short(n, 60), {lengths[d][0]["name"]: r for d, r in bad.items()}, lengths[ch_][0]["name"]))
